@@ -361,6 +361,8 @@ class ExchangeContext(DisplacementContext):
         Integer indices of atoms that were added in the last move.
     _added_atoms : Atoms
         Atoms that were added in the last move.
+    _added_sizes : list[int]
+        Number of atoms of each particle that was added in the last move, in the order of `_added_indices`.
     _deleted_indices : IntegerArray
         Integer indices of atoms that were deleted in the last move.
     _deleted_atoms : Atoms
@@ -380,6 +382,7 @@ class ExchangeContext(DisplacementContext):
     __slots__ = (
         "_added_atoms",
         "_added_indices",
+        "_added_sizes",
         "_deleted_atoms",
         "_deleted_indices",
         "_saved_constraints",
@@ -407,6 +410,7 @@ class ExchangeContext(DisplacementContext):
         """Reset the context by setting all attributes to their default values."""
         self._added_indices: IntegerArray = []
         self._added_atoms: Atoms = Atoms()
+        self._added_sizes: list[int] = []
         self._deleted_indices: IntegerArray = []
         self._deleted_atoms: Atoms = Atoms()
         self._saved_constraints: list | None = None
